@@ -120,11 +120,15 @@ impl FeoxStore {
             }
             source = source.value_source().ok_or(FeoxError::StaleExtent)?;
         }
+        #[cfg(feoxdb_verif)]
+        crate::verif::yield_point("read.before_pin");
         let extent = source.acquire_extent().ok_or(FeoxError::StaleExtent)?;
         let sector = source.sector.load(Ordering::Acquire);
         if self.memory_only || sector == 0 {
             return Err(FeoxError::StaleExtent);
         }
+        #[cfg(feoxdb_verif)]
+        source.verif_note_pin(sector);
         crate::test_hooks::pause_at(crate::test_hooks::AFTER_SECTOR_LOAD);
 
         // Get the appropriate format handler
@@ -148,6 +152,8 @@ impl FeoxStore {
 
         let data = disk_io.read_sectors_sync(sector, sectors_needed as u64)?;
         drop(extent);
+        #[cfg(feoxdb_verif)]
+        crate::verif::yield_point("read.after_pread");
 
         if !sector_holds_record(&data, &source) {
             return Err(FeoxError::StaleExtent);
